@@ -9,6 +9,7 @@ CONSTANTS
   DevD7 = TRUE
   DevD14 = TRUE
   DevGiveUp = FALSE
+  DevRefusedGraft = FALSE
 INVARIANT P_C13
 VIEW MCView
 CHECK_DEADLOCK FALSE
